@@ -55,7 +55,7 @@ KernelUnitGain(r) ==
          SumFrom(SubSeq(r.kernel, 5, 4 + w), 1) = 65536 /\ SumFrom(r.kernel, 5 + w) = 65536
 
 SrcTrulyOpaque(r) ==
-    \/ r.skind = 1                                         \* solid, alpha 1
+    \/ r.skind \in {1, 6}                                   \* solid, alpha 1 (6: drawn by pixman_image_fill_boxes)
     \/ /\ r.skind \in {0, 2, 3} /\ r.s_abits = 0           \* alpha-less format ...
        /\ (r.srep # 0 \/ ~r.simple \/ FootprintInside(r))  \* ... and nothing sampled outside a non-repeating image
        /\ KernelUnitGain(r)                                 \* ... and the filter does not scale alpha
@@ -73,11 +73,14 @@ ValidUnder(op1, op2, ts, td) ==
 TDispatch ==
     /\ Is("Dispatch") /\ cur # <<>>
     /\ LET sfl == SetOf(Ev.sfl)  mfl == SetOf(Ev.mfl)  dfl == SetOf(Ev.dfl)
-       IN  /\ Ev.op_in = cur.op
-           /\ (ValidUnder(Ev.op_in, Ev.op_out, SrcTrulyOpaque(cur) /\ MaskTrulyOpaque(cur), cur.d_abits = 0)) = TRUE  \* (i)
-           /\ ((IS_OPAQUE \in sfl) => SrcTrulyOpaque(cur)) = TRUE                        \* (ii)
-           /\ ((IS_OPAQUE \in mfl) => MaskTrulyOpaque(cur)) = TRUE
-           /\ ((IS_OPAQUE \in dfl) => cur.d_abits = 0) = TRUE
+       IN  \* fill_boxes (source kinds 6, 7) rewrites the operator and the colour itself before it composites (CLEAR
+           \* becomes SRC of transparent black, ...): its requests are judged by their pictures alone (iii)
+           \/ cur.skind \in {6, 7}
+           \/ /\ Ev.op_in = cur.op
+              /\ (ValidUnder(Ev.op_in, Ev.op_out, SrcTrulyOpaque(cur) /\ MaskTrulyOpaque(cur), cur.d_abits = 0)) = TRUE  \* (i)
+              /\ ((IS_OPAQUE \in sfl) => SrcTrulyOpaque(cur)) = TRUE                        \* (ii)
+              /\ ((IS_OPAQUE \in mfl) => MaskTrulyOpaque(cur)) = TRUE
+              /\ ((IS_OPAQUE \in dfl) => cur.d_abits = 0) = TRUE
     /\ UNCHANGED <<valid, cur, first>> /\ Adv
 
 Abs(x) == IF x < 0 THEN -x ELSE x
